@@ -13,7 +13,7 @@ of a tag is empty if the tag has no value with time <= T, otherwise it shows a v
 that no other value of the tag has a time in (t, T].  (Two values of one tag with the same time: either is accepted.)
 """
 from symx.obligation import Obligation
-from props.agg_common2 import patched
+from props.agg_common2 import patched, expect
 
 
 class _Recorder:
@@ -96,8 +96,9 @@ def harness(sym):
             js = [j for j in range(len(ts)) if label(i, j) == cell]
             sym.check(len(js) == 1, "cell-foreign-value", f"{shape}: row {r}, tag {i}: cell {cell!r} is not a value of this tag")
             tc = ts[js[0]]
-            sym.check(tc <= T, "cell-shows-future-value",
-                      f"{shape}: row {r}, tag {i}: the cell shows a value recorded AFTER the row's time")
+            if not expect(sym, tc <= T, "cell-shows-future-value",
+                          f"{shape}: row {r}, tag {i}: the cell shows a value recorded AFTER the row's time"):
+                continue
             sym.check(not any(tc < u and u <= T for u in ts), "cell-shows-stale-value",
                       f"{shape}: row {r}, tag {i}: a later value of the tag at or before the row's time exists")
     sym.note("rows", len(distinct))
